@@ -95,6 +95,14 @@ type CallGhost struct {
 	Text    string
 }
 
+// ImplClause: "implements [tags] pkg.Iface inv predName" on a method contract: the
+// method is checked to refine the interface method's contract (behavioural subtyping).
+type ImplClause struct {
+	Tags  []string
+	Iface string
+	Inv   string
+}
+
 type FuncContract struct {
 	Pkg        string // package path
 	RecvName   string
@@ -117,6 +125,7 @@ type FuncContract struct {
 	CallGhosts []CallGhost
 	GhostParams []string
 	Only        []OnlyClause
+	Impl        *ImplClause
 	Callees     []string // whitelist of callee short names (empty = unrestricted)
 	CalleesTags []string
 	Mode       string // "" strict | "permissive" | "trusted"
@@ -590,7 +599,7 @@ func (ps *parser) parsePrimary() Expr {
 var declKeywords = map[string]bool{"ghost": true, "pure": true, "pred": true, "rec": true, "func": true, "axiom": true, "lemma": true,
 	"package": true, "import": true, "abstract": true, "iface": true, "functype": true, "fieldfunc": true}
 var clauseKeywords = map[string]bool{"requires": true, "ensures": true, "check": true, "modifies": true, "ghost_entry": true,
-	"ghost_exit": true, "loop": true, "call": true, "mode": true, "allocates": true, "tags": true, "ghostparams": true, "only": true, "callees": true}
+	"ghost_exit": true, "loop": true, "call": true, "mode": true, "allocates": true, "tags": true, "ghostparams": true, "only": true, "callees": true, "implements": true}
 
 type rawLine struct {
 	text string
@@ -748,6 +757,13 @@ func parseClause(fc *FuncContract, w, rest string, en rawLine, path string) erro
 	case "tags":
 		tags, _ := parseTags("[" + rest + "]")
 		fc.Tags = append(fc.Tags, tags...)
+	case "implements":
+		tags, body := parseTags(rest)
+		parts := strings.Fields(body)
+		if len(parts) != 3 || parts[1] != "inv" {
+			return fmt.Errorf("implements [tags] pkg.Iface inv predName")
+		}
+		fc.Impl = &ImplClause{Tags: tags, Iface: parts[0], Inv: parts[2]}
 	case "callees":
 		// callees [tags] a, b, c : besides effect-free helpers (log, fmt, errors, strings,
 		// strconv, time.Now, pure path functions) the function may call only these
